@@ -1301,20 +1301,27 @@ impl ApiEndpointVersions {
                 ApiEndpointVersions::From(earliest),
             ) => u.matches(Some(&earliest)),
 
+            // `From(a)` contains everything from `a` on, so the two overlap
+            // iff the other range contains some version >= `a`: either `a`
+            // itself or (the range being non-empty) its own first version.
             (
-                ApiEndpointVersions::From(earliest),
-                ApiEndpointVersions::FromUntil(OrderedVersionPair {
-                    earliest: _,
-                    until,
+                f @ ApiEndpointVersions::From(earliest),
+                r @ ApiEndpointVersions::FromUntil(OrderedVersionPair {
+                    earliest: range_earliest,
+                    until: _,
                 }),
-            ) => earliest < until,
+            ) => {
+                r.matches(Some(&earliest)) || f.matches(Some(&range_earliest))
+            }
             (
-                ApiEndpointVersions::FromUntil(OrderedVersionPair {
-                    earliest: _,
-                    until,
+                r @ ApiEndpointVersions::FromUntil(OrderedVersionPair {
+                    earliest: range_earliest,
+                    until: _,
                 }),
-                ApiEndpointVersions::From(earliest),
-            ) => earliest < until,
+                f @ ApiEndpointVersions::From(earliest),
+            ) => {
+                r.matches(Some(&earliest)) || f.matches(Some(&range_earliest))
+            }
 
             (
                 u @ ApiEndpointVersions::Until(_),
